@@ -140,8 +140,8 @@ def _ends_with_return(body):
     return False
 
 
-def _inlinable(fn):
-    if fn.name in KEEP or not fn.name.startswith("_") or fn.name.startswith("__"):
+def _inlinable(fn, force=False):
+    if fn.name in KEEP or (not fn.name.startswith("_") and not force) or fn.name.startswith("__"):
         return False
     for d in fn.decorator_list:
         if not (isinstance(d, ast.Name) and d.id in ("staticmethod", "classmethod")):
@@ -280,7 +280,7 @@ def inline_helpers(tree, extern=None):
     helpers = {}
     methods = {}
     for nm, node in (extern or {}).items():
-        if _inlinable(node):
+        if _inlinable(node, force=True):
             helpers[nm] = node
     for node in tree.body:
         if isinstance(node, ast.FunctionDef) and _inlinable(node):
@@ -405,7 +405,41 @@ def inline_helpers(tree, extern=None):
     return total
 
 
+import re as _re_mod
+_TEMP_NAME = _re_mod.compile(r"^(__ret_\w+|\w+__[A-Za-z_]+\d+)$")
+
+
 def _collapse_result_copies(tree):
+    # temporaries introduced by the inliner that are bound once and read once, in the very next statement, are substituted
+    for node in ast.walk(tree):
+        for field in ("body", "orelse", "finalbody"):
+            blk = getattr(node, field, None)
+            if not (isinstance(blk, list) and blk and isinstance(blk[0], ast.stmt)):
+                continue
+            i = 0
+            while i + 1 < len(blk):
+                a, b = blk[i], blk[i + 1]
+                if isinstance(a, ast.Assign) and len(a.targets) == 1 and isinstance(a.targets[0], ast.Name) and _TEMP_NAME.match(a.targets[0].id) \
+                        and not isinstance(b, (ast.For, ast.While, ast.If, ast.Try, ast.With, ast.FunctionDef, ast.ClassDef)):
+                    nm = a.targets[0].id
+                    uses_next = [x for x in ast.walk(b) if isinstance(x, ast.Name) and x.id == nm and isinstance(x.ctx, ast.Load)]
+                    later = any(isinstance(x, ast.Name) and x.id == nm for st in blk[i + 2:] for x in ast.walk(st))
+                    stores_next = any(isinstance(x, ast.Name) and x.id == nm and isinstance(x.ctx, ast.Store) for x in ast.walk(b))
+                    simple = isinstance(a.value, (ast.Name, ast.Constant)) or (
+                        isinstance(a.value, (ast.Attribute, ast.Subscript)) and not any(isinstance(x, ast.Call) for x in ast.walk(a.value)))
+                    if len(uses_next) == 1 and not later and not stores_next and simple:
+                        value = a.value
+
+                        class S(ast.NodeTransformer):
+                            def visit_Name(self, n_):
+                                if n_.id == nm and isinstance(n_.ctx, ast.Load):
+                                    return ast.copy_location(value, n_)
+                                return n_
+                        blk[i + 1] = S().visit(b)
+                        del blk[i]
+                        i = max(i - 1, 0)
+                        continue
+                i += 1
     for node in ast.walk(tree):
         for field in ("body", "orelse", "finalbody"):
             blk = getattr(node, field, None)
@@ -1300,8 +1334,9 @@ def extern_helpers(tree, modname, raw_trees):
                 src = raw_trees.get(node.module.split(".")[-1])
                 if src is None:
                     continue
+                private_mod = node.module.split(".")[-1].startswith("_") and node.module.split(".")[-1] != "__init__"
                 for a in node.names:
-                    if a.name.startswith("_") and not a.name.startswith("__"):
+                    if (a.name.startswith("_") or private_mod) and not a.name.startswith("__"):
                         for d in src.body:
                             if isinstance(d, ast.FunctionDef) and d.name == a.name:
                                 out[a.asname or a.name] = d
@@ -1309,13 +1344,48 @@ def extern_helpers(tree, modname, raw_trees):
                 for a in node.names:
                     if a.name in raw_trees:
                         aliases[a.asname or a.name] = a.name
+    # literal constants of private modules: `from ._units import METRES_PER_FOOT`, `_units.METRES_PER_FOOT`
+    def literal_of(modname, name):
+        src = raw_trees.get(modname)
+        if src is None:
+            return None
+        defs = [n_ for n_ in src.body if isinstance(n_, ast.Assign) and len(n_.targets) == 1 and isinstance(n_.targets[0], ast.Name)
+                and n_.targets[0].id == name]
+        if len(defs) == 1 and _is_literal(defs[0].value):
+            return defs[0].value
+        return None
+    imported_consts = {}
+    for node in tree.body:
+        if isinstance(node, ast.ImportFrom) and node.level >= 1 and node.module and node.module.split(".")[-1].startswith("_"):
+            for a in node.names:
+                lit = literal_of(node.module.split(".")[-1], a.name)
+                if lit is not None:
+                    imported_consts[a.asname or a.name] = lit
+    priv_aliases = {k: v for k, v in aliases.items() if v.startswith("_")}
+    if imported_consts or priv_aliases:
+        rebound = {x.id for x in ast.walk(tree) if isinstance(x, ast.Name) and isinstance(x.ctx, ast.Store)}
+
+        class K(ast.NodeTransformer):
+            def visit_Name(self, node):
+                if isinstance(node.ctx, ast.Load) and node.id in imported_consts and node.id not in rebound:
+                    return ast.copy_location(copy.deepcopy(imported_consts[node.id]), node)
+                return node
+
+            def visit_Attribute(self, node):
+                self.generic_visit(node)
+                if isinstance(node.ctx, ast.Load) and isinstance(node.value, ast.Name) and node.value.id in priv_aliases:
+                    lit = literal_of(priv_aliases[node.value.id], node.attr)
+                    if lit is not None:
+                        return ast.copy_location(copy.deepcopy(lit), node)
+                return node
+        K().visit(tree)
     if aliases:
         class R(ast.NodeTransformer):
             def visit_Call(self, node):
                 self.generic_visit(node)
                 f = node.func
                 if isinstance(f, ast.Attribute) and isinstance(f.value, ast.Name) and f.value.id in aliases \
-                        and f.attr.startswith("_") and not f.attr.startswith("__"):
+                        and (f.attr.startswith("_") or aliases[f.value.id].startswith("_")) and not f.attr.startswith("__"):
                     src = raw_trees[aliases[f.value.id]]
                     for d in src.body:
                         if isinstance(d, ast.FunctionDef) and d.name == f.attr:
@@ -1343,3 +1413,285 @@ def normalize(tree, extern=None):
     stats["multi_assign"] = split_multi_assign(tree)
     stats["tests"] = canonical_tests(tree)
     return stats
+
+
+# ------------------------------------------------------------------------------------------------ package-level passes
+
+def _dict_keys_of_call(call, trees):
+    """constant keys of the dict a package function returns (`**get_section_widths(...)`), or None when unknown"""
+    f = call.func
+    nm = f.id if isinstance(f, ast.Name) else (f.attr if isinstance(f, ast.Attribute) else None)
+    if nm is None:
+        return None
+    cands = [d for t in trees.values() for d in ast.walk(t) if isinstance(d, ast.FunctionDef) and d.name == nm]
+    if len(cands) != 1:
+        return None
+    fn = cands[0]
+    keys = set()
+    for r_ in ast.walk(fn):
+        if isinstance(r_, ast.Return):
+            v = r_.value
+            if isinstance(v, ast.Dict) and all(isinstance(k, ast.Constant) for k in v.keys):
+                keys |= {k.value for k in v.keys}
+            elif isinstance(v, ast.Name):
+                for a in ast.walk(fn):
+                    if isinstance(a, ast.Assign):
+                        for t in a.targets:
+                            if isinstance(t, ast.Name) and t.id == v.id:
+                                if isinstance(a.value, ast.Dict) and all(isinstance(k, ast.Constant) for k in a.value.keys):
+                                    keys |= {k.value for k in a.value.keys}
+                                else:
+                                    return None
+                            if isinstance(t, ast.Subscript) and isinstance(t.value, ast.Name) and t.value.id == v.id:
+                                if isinstance(t.slice, ast.Constant):
+                                    keys.add(t.slice.value)
+                                else:
+                                    return None
+            else:
+                return None
+    return keys or None
+
+
+_COMMON_METHOD_NAMES = {"get", "keys", "values", "items", "append", "insert", "extend", "pop", "update", "index", "count", "read",
+                        "write", "close", "strip", "split", "join", "format", "copy", "sort", "remove", "clear", "add", "seek", "tell",
+                        "readline", "readlines", "setdefault", "startswith", "endswith", "replace", "find", "search", "match", "sub",
+                        "open", "encode", "decode", "lower", "upper", "set", "info", "debug", "warning", "error", "max", "min", "mean"}
+
+
+def propagate_default_params(trees):
+    """A parameter with a literal default that no call inside the package ever supplies (positionally, by keyword, or through
+    an unknown `**mapping`) has that literal as its value in every execution the package itself starts; for functions that
+    *are* called inside the package such parameters are replaced by the literal (a new optional keyword whose default
+    reproduces the old hard-coded value therefore analyses like the old code).  Public entry points that are never called
+    inside the package keep all their parameters."""
+    total = 0
+    calls_by_name = {}
+    for t in trees.values():
+        for c in ast.walk(t):
+            if isinstance(c, ast.Call):
+                f = c.func
+                nm = f.id if isinstance(f, ast.Name) else (f.attr if isinstance(f, ast.Attribute) else None)
+                if nm and not (isinstance(f, ast.Attribute) and nm in _COMMON_METHOD_NAMES):
+                    calls_by_name.setdefault(nm, []).append(c)
+    import json as _json
+    import os as _os
+    try:
+        reference = _json.load(open(_os.path.join(_os.path.dirname(_os.path.abspath(__file__)), "api_reference.json")))
+    except Exception:  # noqa
+        reference = None
+    if reference is None:
+        return 0
+
+    def quals(node, prefix, acc):
+        for ch in ast.iter_child_nodes(node):
+            if isinstance(ch, (ast.FunctionDef, ast.AsyncFunctionDef)):
+                acc[id(ch)] = prefix + "." + ch.name
+                quals(ch, prefix + "." + ch.name, acc)
+            elif isinstance(ch, ast.ClassDef):
+                quals(ch, prefix + "." + ch.name, acc)
+            else:
+                quals(ch, prefix, acc)
+    qual_of = {}
+    for modname, t in trees.items():
+        quals(t, modname, qual_of)
+    # functions that do not exist today and that nothing else in the package calls are additions outside every property:
+    # call sites inside them say nothing about how today's API behaves
+    all_fns = [x for t in trees.values() for x in ast.walk(t) if isinstance(x, ast.FunctionDef)]
+    dead_calls = set()
+    for _ in range(3):
+        grew = False
+        for fn in all_fns:
+            if qual_of.get(id(fn), "") in reference or fn.name.startswith("__"):
+                continue
+            own = {id(c) for c in ast.walk(fn) if isinstance(c, ast.Call)}
+            outside = [c for c in calls_by_name.get(fn.name, []) if id(c) not in own and id(c) not in dead_calls]
+            if not outside and not own <= dead_calls:
+                dead_calls |= own
+                grew = True
+        if not grew:
+            break
+    if dead_calls:
+        calls_by_name = {k: [c for c in v if id(c) not in dead_calls] for k, v in calls_by_name.items()}
+    for modname, t in trees.items():
+        for fn in [x for x in ast.walk(t) if isinstance(x, ast.FunctionDef)]:
+            name = fn.name
+            known_params = reference.get(qual_of.get(id(fn), ""))
+            callee_names = [name] + (["__call__"] if name == "__init__" else [])
+            sites = list(calls_by_name.get(name, []))
+            if name == "__init__":
+                # constructor calls: ClassName(...)
+                cls = getattr(fn, "_parent_class", None)
+                if cls:
+                    sites += calls_by_name.get(cls, [])
+            if known_params is None and not sites:
+                continue      # a new function nobody in the package calls: an entry point, all its parameters are free
+            own_calls = {id(c) for c in ast.walk(fn) if isinstance(c, ast.Call)}
+            changed_flag = [False]
+            a = fn.args
+            pos = [x.arg for x in a.args]
+            is_method = bool(pos) and pos[0] in ("self", "cls")
+            defaults = dict(zip(pos[len(pos) - len(a.defaults):], a.defaults))
+            defaults.update({x.arg: d for x, d in zip(a.kwonlyargs, a.kw_defaults) if d is not None})
+            if not defaults:
+                continue
+            stored = {x.id for x in ast.walk(fn) if isinstance(x, ast.Name) and isinstance(x.ctx, (ast.Store, ast.Del))}
+            for p_, d in defaults.items():
+                if not _is_literal(d) or isinstance(d, ast.Tuple) or p_ in stored:
+                    continue
+                if known_params is not None and p_ in known_params:
+                    continue      # a parameter of today's API: the properties range over all its values
+                idx = pos.index(p_) if p_ in pos else None
+                supplied = False
+                for c in sites:
+                    npos = len(c.args)
+                    if any(isinstance(x, ast.Starred) for x in c.args):
+                        supplied = True
+                        break
+                    if idx is not None:
+                        eff = idx - (1 if is_method and isinstance(c.func, ast.Attribute) else 0)
+                        if is_method and isinstance(c.func, ast.Name):
+                            eff = idx - 1      # ClassName(...) constructor call
+                        if npos > eff >= 0:
+                            av = c.args[eff]
+                            if _is_literal(av) and ast.dump(av) == ast.dump(d):
+                                pass       # the caller passes the default itself
+                            elif isinstance(av, ast.Name) and av.id == p_ and id(c) in own_calls:
+                                pass
+                            else:
+                                supplied = True
+                                break
+                    for k in c.keywords:
+                        if k.arg == p_:
+                            # the recursive call f(..., p=p) hands the same value on
+                            if isinstance(k.value, ast.Name) and k.value.id == p_ and id(c) in own_calls:
+                                continue
+                            if _is_literal(k.value) and ast.dump(k.value) == ast.dump(d):
+                                continue
+                            supplied = True
+                        if k.arg is None:
+                            kv = k.value
+                            if isinstance(kv, ast.Name):
+                                # `**widths` where widths = get_section_widths(...) in the same function
+                                host = next((f_ for f_ in all_fns if any(x is c for x in ast.walk(f_))), None)
+                                ds = [a_.value for a_ in ast.walk(host) if isinstance(a_, ast.Assign) and any(
+                                    isinstance(t_, ast.Name) and t_.id == kv.id for t_ in a_.targets)] if host is not None else []
+                                if ds and all(isinstance(d_, ast.Call) for d_ in ds):
+                                    ks = [_dict_keys_of_call(d_, trees) for d_ in ds]
+                                    keys = None if any(x is None for x in ks) else set().union(*ks)
+                                else:
+                                    keys = None
+                                if keys is None or p_ in keys:
+                                    supplied = True
+                                continue
+                            keys = _dict_keys_of_call(k.value, trees) if isinstance(k.value, ast.Call) else None
+                            if keys is None or p_ in keys:
+                                supplied = True
+                    if supplied:
+                        break
+                if supplied:
+                    continue
+                lit = d
+
+                class R(ast.NodeTransformer):
+                    def visit_FunctionDef(self, node):
+                        if node is not fn and any(x.arg == p_ for x in node.args.args + node.args.kwonlyargs):
+                            return node        # shadowed in a nested function
+                        self.generic_visit(node)
+                        return node
+
+                    def visit_Lambda(self, node):
+                        if any(x.arg == p_ for x in node.args.args):
+                            return node
+                        self.generic_visit(node)
+                        return node
+
+                    def visit_Name(self, node):
+                        if node.id == p_ and isinstance(node.ctx, ast.Load):
+                            changed_flag[0] = True
+                            return ast.copy_location(copy.deepcopy(lit), node)
+                        return node
+                changed_flag[0] = False
+                for st in fn.body:
+                    R().visit(st)
+                if changed_flag[0]:
+                    total += 1
+    for t in trees.values():
+        ast.fix_missing_locations(t)
+    return total
+
+
+def fold_constant_strings(tree):
+    """`"a" + "b"` -> "ab"; `"%s.%s%s%s" % (x, y, " : ", z)` -> `"%s.%s : %s" % (x, y, z)` (plain %s placeholders only);
+    f(*("a", 1)) -> f("a", 1); `if <literal>:` pruned"""
+    n = [0]
+
+    class F(ast.NodeTransformer):
+        def visit_BinOp(self, node):
+            self.generic_visit(node)
+            if isinstance(node.op, ast.Add) and isinstance(node.left, ast.Constant) and isinstance(node.right, ast.Constant) \
+                    and isinstance(node.left.value, str) and isinstance(node.right.value, str):
+                n[0] += 1
+                return ast.copy_location(ast.Constant(value=node.left.value + node.right.value), node)
+            if isinstance(node.op, ast.Mod) and isinstance(node.left, ast.Constant) and isinstance(node.left.value, str) \
+                    and isinstance(node.right, ast.Tuple) and any(isinstance(e, ast.Constant) and isinstance(e.value, str) for e in node.right.elts):
+                tpl = node.left.value
+                parts = tpl.split("%s")
+                if len(parts) == len(node.right.elts) + 1 and "%" not in "".join(parts).replace("%%", ""):
+                    new_parts = [parts[0]]
+                    keep = []
+                    for e, nxt in zip(node.right.elts, parts[1:]):
+                        if isinstance(e, ast.Constant) and isinstance(e.value, str):
+                            new_parts[-1] += e.value.replace("%", "%%") + nxt
+                        else:
+                            keep.append(e)
+                            new_parts.append(nxt)
+                    n[0] += 1
+                    node.left = ast.copy_location(ast.Constant(value="%s".join(new_parts)), node.left)
+                    node.right = ast.copy_location(ast.Tuple(elts=keep, ctx=ast.Load()), node.right)
+            return node
+
+        def visit_Call(self, node):
+            self.generic_visit(node)
+            if any(isinstance(a, ast.Starred) and isinstance(a.value, (ast.Tuple, ast.List)) for a in node.args):
+                new = []
+                for a in node.args:
+                    if isinstance(a, ast.Starred) and isinstance(a.value, (ast.Tuple, ast.List)):
+                        new.extend(a.value.elts)
+                        n[0] += 1
+                    else:
+                        new.append(a)
+                node.args = new
+            return node
+    F().visit(tree)
+
+    def prune(stmts):
+        out = []
+        for st in stmts:
+            if isinstance(st, ast.If):
+                t = st.test
+                val = None
+                if isinstance(t, ast.Constant):
+                    val = bool(t.value)
+                elif isinstance(t, ast.Compare) and len(t.ops) == 1 and isinstance(t.left, ast.Constant) and isinstance(t.comparators[0], ast.Constant) \
+                        and isinstance(t.ops[0], (ast.Is, ast.IsNot)) and t.left.value is None or (
+                            isinstance(t, ast.Compare) and len(t.ops) == 1 and isinstance(t.left, ast.Constant)
+                            and isinstance(t.comparators[0], ast.Constant) and isinstance(t.ops[0], (ast.Is, ast.IsNot))
+                            and t.comparators[0].value is None):
+                    same = t.left.value is t.comparators[0].value
+                    val = same if isinstance(t.ops[0], ast.Is) else not same
+                if val is not None:
+                    n[0] += 1
+                    out.extend(st.body if val else st.orelse)
+                    continue
+            out.append(st)
+        # statements after an unconditional return / raise / break / continue of the same block are dead
+        for i_, st in enumerate(out):
+            if isinstance(st, (ast.Return, ast.Raise, ast.Break, ast.Continue)) and i_ + 1 < len(out):
+                if n[0]:
+                    out = out[:i_ + 1]
+                break
+        return out or [ast.Pass()]
+    _map_blocks(tree, prune)
+    if n[0]:
+        ast.fix_missing_locations(tree)
+    return n[0]
